@@ -694,7 +694,8 @@ Fixpoint state_after (c : fcfg) (s : fstate) (ops : list fop) : fstate :=
      queue_bound       after every window the discardable jobs known to be waiting (accepted, and
                        later seen starting / being discarded) number at most L -- in the factory
                        queue for factory-queueing routers, per worker slot otherwise
-     shed_identity     Newest: a load-shed job was never accepted; Oldest: it had been accepted,
+     shed_identity     Newest: a load-shed job was never accepted (unless a worker-queueing router
+                       started with an empty pool); Oldest: it had been accepted,
                        and (factory queue, one arrival in the window) it is older / of lower
                        priority than everything still waiting
      reject_reported   a rejected job was reported once, as Shutdown after DrainRequests, else as
@@ -845,7 +846,12 @@ Definition ck_shed_identity (c : fcfg) (ws : list window) : bool :=
   let evs := evs_of ws in
   match c_discard c with
   | None => true
-  | Some (_, Newest) => forallb (fun id => negb (existsb (is_accept id) evs)) (shed_ids evs)
+  | Some (_, Newest) =>
+    (* with a worker-queueing router and an initially empty pool, accepted jobs backlogged in the
+       factory queue are later moved to a worker's queue, where each is the newest arrival and
+       may be shed: only then can a shed job have been accepted before *)
+    if factory_queueing c || (0 <? c_n0 c)
+    then forallb (fun id => negb (existsb (is_accept id) evs)) (shed_ids evs) else true
   | Some (_, Oldest) =>
     forallb (fun id => existsb (is_accept id) evs) (shed_ids evs)
     && (match c_router c with RQueuer => si_scan c (jobs_of (ops_of ws)) [] ws | _ => true end)
